@@ -123,6 +123,11 @@ class TracedSolver(hsolver.Solver):
         self._v = RecValueStore(trace)
 
     def _attempt_field(self, field):
+        # deterministic guard: no solve of these sizes attempts lines 150000 times; a solver that keeps re-queueing
+        # a line inside its inner loop (where the tracker is never polled) would otherwise never come back
+        self._hx_attempts = getattr(self, '_hx_attempts', 0) + 1
+        if self._hx_attempts > 150000:
+            raise LoopBudgetExceeded('more than 150000 line attempts in one solve')
         self.trace.begin(field.name())
         before = len(self._unimplemented_fields)
         try:
